@@ -489,6 +489,19 @@ func runCase(s *Schema, e Edit) (c kit.Case, ok bool, err error) {
 
 // Generate: corpus first, then schemas x edits until n cases are written.
 func Generate(seed uint64, n int, tier string, corpusDir string, out *kit.Out) error {
+	// cases showing a listed known finding (tags F15:..., C18-PKG:...) are written after all others: when the
+	// code is broken elsewhere and the model disagrees, bin/check no longer accepts them as known, and the first
+	// violations it lists should be the genuine ones, not these look-alikes
+	var deferred []kit.Case
+	emit := func(c kit.Case) {
+		for _, t := range c.Tags {
+			if strings.HasPrefix(t, "F15:") || strings.HasPrefix(t, "C18-PKG:") {
+				deferred = append(deferred, c)
+				return
+			}
+		}
+		out.Emit(c)
+	}
 	if corpusDir != "" {
 		entries, _ := os.ReadDir(corpusDir)
 		var names []string
@@ -499,9 +512,11 @@ func Generate(seed uint64, n int, tier string, corpusDir string, out *kit.Out) e
 		}
 		sort.Strings(names)
 		for _, nm := range names {
-			if err := Replay(corpusDir+"/"+nm, out); err != nil {
+			c, err := replayCase(corpusDir + "/" + nm)
+			if err != nil {
 				return fmt.Errorf("%s: %w", nm, err)
 			}
+			emit(c)
 		}
 	}
 	r := kit.NewRng(seed)
@@ -510,7 +525,6 @@ func Generate(seed uint64, n int, tier string, corpusDir string, out *kit.Out) e
 		perSchema = 1 << 30 // every applicable position of every edit kind
 	}
 	emitted := 0
-	var deferred []kit.Case
 	for emitted < n {
 		cr := r.Fork()
 		s := genSchema(cr)
@@ -562,13 +576,7 @@ func Generate(seed uint64, n int, tier string, corpusDir string, out *kit.Out) e
 				continue
 			}
 			emitted++
-			// query argument / result edits (known finding F15b) are written last so that, when the
-			// code is broken elsewhere, the first violations bin/check lists are not its look-alikes
-			if e.Kind == "query_param" || e.Kind == "query_res" {
-				deferred = append(deferred, c)
-				continue
-			}
-			out.Emit(c)
+			emit(c)
 		}
 	}
 	for _, c := range deferred {
@@ -579,9 +587,18 @@ func Generate(seed uint64, n int, tier string, corpusDir string, out *kit.Out) e
 
 // Replay runs exactly the (schema, edit) stored in a corpus or replay file.
 func Replay(path string, out *kit.Out) error {
-	b, err := os.ReadFile(path)
+	c, err := replayCase(path)
 	if err != nil {
 		return err
+	}
+	out.Emit(c)
+	return nil
+}
+
+func replayCase(path string) (c kit.Case, err error) {
+	b, err := os.ReadFile(path)
+	if err != nil {
+		return c, err
 	}
 	var w struct {
 		Case *struct {
@@ -592,7 +609,7 @@ func Replay(path string, out *kit.Out) error {
 		Edit   *Edit     `json:"edit"`
 	}
 	if err := json.Unmarshal(b, &w); err != nil {
-		return err
+		return c, err
 	}
 	var d *caseDesc
 	switch {
@@ -603,15 +620,14 @@ func Replay(path string, out *kit.Out) error {
 	case w.Schema != nil && w.Edit != nil:
 		d = &caseDesc{Schema: w.Schema, Edit: *w.Edit}
 	default:
-		return fmt.Errorf("%s: no (schema, edit) found", path)
+		return c, fmt.Errorf("%s: no (schema, edit) found", path)
 	}
 	c, ok, err := runCase(d.Schema, d.Edit)
 	if err != nil {
-		return err
+		return c, err
 	}
 	if !ok {
-		return fmt.Errorf("%s: the edit is not applicable or the edited schema does not build", path)
+		return c, fmt.Errorf("%s: the edit is not applicable or the edited schema does not build", path)
 	}
-	out.Emit(c)
-	return nil
+	return c, nil
 }
